@@ -31,6 +31,7 @@ from bqskit.compiler.machine import MachineModel
 from bqskit.compiler.passdata import PassData
 from bqskit.compiler.workflow import Workflow
 from bqskit.ir.circuit import Circuit
+from bqskit.ir.gate import Gate
 from bqskit.ir.gates import CircuitGate
 from bqskit.ir.gates import ConstantUnitaryGate
 from bqskit.ir.gates import RZGate
@@ -347,6 +348,35 @@ class BlockBody(BasePass):
         if self.kind == 'raise':
             raise RuntimeError(BODY_FAILURE)
         apply_kind(self.kind, circuit)
+
+
+# ------------------------------------------------- a gate from outside bqskit
+class HarnessPhaseGate(Gate):
+    """diag(1, exp(i * scale * theta)) -- a user-defined gate living in a
+    module that is not part of bqskit, so that Circuit.__reduce__ ships it
+    through its dill branch."""
+
+    _num_qudits = 1
+    _num_params = 1
+    _radixes = (2,)
+    _qasm_name = 'hphase'
+
+    def __init__(self, scale: float = 1.0) -> None:
+        self.scale = float(scale)
+        self._name = 'HarnessPhaseGate(%r)' % self.scale
+
+    def get_unitary(self, params: Any = []) -> UnitaryMatrix:
+        self.check_parameters(params)
+        return UnitaryMatrix(
+            np.diag([1.0, np.exp(1j * self.scale * params[0])]),
+        )
+
+    def __eq__(self, other: object) -> bool:
+        return isinstance(other, HarnessPhaseGate) \
+            and other.scale == self.scale
+
+    def __hash__(self) -> int:
+        return hash(('HarnessPhaseGate', self.scale))
 
 
 # ------------------------------------------------------------------ filters
